@@ -238,9 +238,12 @@ def check_ops(spec, ctx):
         _cmp(ctx, "apply_matrix", res_vals(g), V @ A.T, sc.max(axis=-1, keepdims=True) * np.abs(A).sum() + 0 * (V @ A.T))
         nontriv = nontriv or A.shape[0] != A.shape[1]
     elif op == "getitem":
-        I = arg
-        g = ctx.sut(f.__getitem__, I if not isinstance(I, list) else I, what="__getitem__")
+        # component selection follows Python/numpy indexing of the component axis: negative ints, open-ended and stepped
+        # slices, index lists with negative entries
+        I = slice(*arg["slice"]) if isinstance(arg, dict) else arg
+        g = ctx.sut(f.__getitem__, I, what="__getitem__")
         _cmp(ctx, "getitem", res_vals(g), V[..., I], sc[..., I])
+        nontriv = nontriv or isinstance(I, slice) or (np.min(I) < 0)
     elif op == "as_nurbs":
         g = ctx.sut(f.as_nurbs, what="as_nurbs")
         ctx.require("as_nurbs", type(g).__name__ == "NurbsFunc", "not a NurbsFunc")
@@ -432,7 +435,11 @@ def strat_ops(draw):
         rows = draw(st.integers(1, 3))
         spec["arg"] = [[draw(q) for _ in range(vs[0])] for _ in range(rows)]
     elif op == "getitem":
-        spec["arg"] = draw(st.one_of(st.integers(0, vs[0] - 1), st.lists(st.integers(0, vs[0] - 1), min_size=1, max_size=3)))
+        n = vs[0]
+        sl = st.sampled_from([[None, None, None], [1, None, None], [None, -1, None], [-2, None, None], [None, None, -1],
+                              [None, None, 2], [0, n, None], [0, 1, None], [-1, None, None], [n - 1, None, -1]])
+        spec["arg"] = draw(st.one_of(st.integers(-n, n - 1), st.lists(st.integers(-n, n - 1), min_size=1, max_size=3),
+                                     sl.map(lambda t: {"slice": t})))
     elif op == "boundary":
         spec["arg"] = [draw(st.integers(0, len(fs["kvs"]) - 1)), draw(st.integers(0, 1))]
         spec["byname"] = draw(st.booleans())
